@@ -17,7 +17,8 @@ const B = bgzf.BlockSize
 // file shapes: small members (1..8 bytes, with empty ones) and block-size classes
 func shapes(r *rand.Rand, n int) [][]int {
 	out := [][]int{{3}, {1, 1}, {3, 0, 2}, {2, 3, 4, 1}, {0, 5}, {4, 0, 0, 3}, {8, 8, 8, 8, 8, 8}, {1, 2, 3, 4, 5, 6, 7},
-		{B}, {B - 1, 1, B}, {B, 0, B, 10}, {100, B, 7, B - 1, 1}}
+		{B}, {B - 1, 1, B}, {B, 0, B, 10}, {100, B, 7, B - 1, 1},
+		{5, 65536, 9}} // 65536: the largest payload a member may hold (more than a Writer ever puts in one)
 	for i := 0; i < n; i++ {
 		m := 1 + r.Intn(7)
 		var s []int
@@ -272,6 +273,7 @@ func RunCuts(out string) {
 		bgz.BuildFile([]int{8, 8, 8}, false, 6, false),
 		bgz.BuildFile([]int{B, 10, 3000}, true, 1, false),
 		bgz.BuildFile([]int{3, 5, 2, 7, 4, 6, 1, 8, 3, 5, 2, 7, 4, 6, 1, 8}, true, 1, false),
+		bgz.BuildFile([]int{65536, 10}, true, 1, false), // a member with the largest payload the format allows
 	}
 	values := []int{1, 0x80}
 	if tr.Tier() == "thorough" {
@@ -354,8 +356,9 @@ func RunCuts(out string) {
 				}
 			}
 		}
+		dense := len(f.Members) > 0 && f.Members[0].Len == 65536
 		for p := 0; p < len(f.Bytes); p++ {
-			if !small && !near(p) && p%499 != 0 {
+			if !small && !near(p) && p%499 != 0 && !(dense && p%61 == 0) {
 				continue
 			}
 			for _, v := range values {
